@@ -110,7 +110,11 @@ def set_rod_velocity(rod, node, comp, elem=None, ocomp=None, planar=False):
     if node is not None:
         rod.velocity_collection[comp, node] = 1.0
     if elem is not None:
-        rod.omega_collection[ocomp, elem] = 1.0
+        if planar:
+            # a planar rod can only spin about z: material-frame components of the lab vector (0, 0, 1)
+            rod.omega_collection[:, elem] = rod.director_collection[:, 2, elem]
+        else:
+            rod.omega_collection[ocomp, elem] = 1.0
 
 
 def generic_rod_velocity(rod, seed=0, planar=False):
@@ -121,7 +125,11 @@ def generic_rod_velocity(rod, seed=0, planar=False):
     rod.velocity_collection[2] = 0.0 if planar else 0.15 * np.sin(0.5 * k + 1 + seed)
     e = np.arange(n)
     rod.omega_collection[...] = 0
-    rod.omega_collection[2] = 0.8 * np.cos(e + seed) + 0.2
+    if planar:
+        # in-plane rotation: lab angular velocity (0, 0, w_e), expressed in each element's material frame
+        rod.omega_collection[...] = rod.director_collection[:, 2, :] * (0.8 * np.cos(e + seed) + 0.2)
+    else:
+        rod.omega_collection[2] = 0.8 * np.cos(e + seed) + 0.2
     if not planar:
         rod.omega_collection[0] = 0.5 * np.sin(2 * e + seed)
         rod.omega_collection[1] = -0.4 * np.cos(e * 0.7 + seed)
